@@ -1,6 +1,6 @@
 (* C18 instances: how much a loader pulls for well-formed files followed by arbitrary bodies. *)
 From Coq Require Import List NArith ZArith Lia Bool. From Coq Require Import Strings.Byte.
-From PrismV Require Import IO.IO IO.IOTheory IO.Parse IO.IOTheory2 IO.Encode Meta.Meta Meta.MetaProofs Meta.WebpProofs.
+From PrismV Require Import IO.IO IO.IOTheory IO.Parse IO.IOTheory2 IO.Encode Meta.Meta Meta.MetaProofs Meta.WebpProofs Meta.PngProofs Meta.JpegProofs.
 Import ListNotations.
 
 Lemma vp8_file_length total len t0 t1 t2 w sx h sy body :
@@ -19,4 +19,70 @@ Proof.
   unfold consumed in B. rewrite Hd in B.
   rewrite (webp_vp8_meta inflate total len t0 t1 t2 w sx h sy body fuel) in B by assumption.
   cbn [snd] in B. rewrite vp8_file_length in B. lia.
+Qed.
+
+(* generic: when the pure meaning leaves exactly [rest] unread, at most |pre| + 4095 bytes are pulled *)
+Lemma pulled_prefix inflate {A} (p : prog A) r pre rest x :
+  no_rd_once p -> nofail r -> src_data r = pre ++ rest -> run_pure inflate p (pre ++ rest) = (x, rest) ->
+  pulled inflate p r <= length pre + 4095.
+Proof.
+  intros Hp Hn Hd Hr. pose proof (readahead_bound inflate p r Hp Hn) as B.
+  unfold consumed in B. rewrite Hd, Hr in B. cbn [snd] in B. rewrite app_length in B. lia.
+Qed.
+
+(* PNG: everything up to and including the first IDAT/IEND chunk header is the needed prefix *)
+Definition png_head (w h : N) (depth : byte) (rest crc : list byte) (ancs : list anc) (endlen : N) (endty : list byte) : list byte :=
+  png_sig ++ chunk_bytes ty_IHDR (ihdr_data w h depth rest) crc ++ concat (map anc_bytes ancs) ++ u32be endlen ++ endty.
+Lemma png_file_head w h depth rest crc ancs endlen endty body :
+  png_file w h depth rest crc ancs endlen endty body = png_head w h depth rest crc ancs endlen endty ++ body.
+Proof. unfold png_file, png_head. rewrite <- !app_assoc. reflexivity. Qed.
+
+Theorem png_pulled inflate w h depth rest crc ancs endlen endty body fuel r :
+  (w < 4294967296)%N -> (h < 4294967296)%N -> length crc = 4 -> (lenN (ihdr_data w h depth rest) < 4294967296)%N ->
+  Forall anc_ok ancs -> (endlen < 4294967296)%N -> (endty = ty_IDAT \/ endty = ty_IEND) ->
+  length ancs + 2 <= fuel -> length rest <= fuel -> Forall (fun a => length (a_data a) <= fuel) ancs ->
+  nofail r -> src_data r = png_file w h depth rest crc ancs endlen endty body ->
+  pulled inflate (png_prog fuel) r <= length (png_head w h depth rest crc ancs endlen endty) + 4095.
+Proof.
+  intros H1 H2 H3 H4 H5 H6 H7 H8 H9 H10 Hn Hd. rewrite png_file_head in Hd.
+  eapply pulled_prefix; [apply png_no_rd_once | exact Hn | exact Hd |].
+  rewrite <- png_file_head. apply png_meta; assumption.
+Qed.
+
+(* PNG with a profile: nothing after the iCCP chunk is needed *)
+Definition png_head_icc (w h : N) (depth : byte) (rest crc : list byte) (ancs1 : list anc) (name z icrc : list byte) : list byte :=
+  png_sig ++ chunk_bytes ty_IHDR (ihdr_data w h depth rest) crc ++ concat (map anc_bytes ancs1) ++ chunk_bytes ty_iCCP (iccp_data name z) icrc.
+Lemma png_file_icc_head w h depth rest crc ancs1 name z icrc tail :
+  png_file_icc w h depth rest crc ancs1 name z icrc tail = png_head_icc w h depth rest crc ancs1 name z icrc ++ tail.
+Proof. unfold png_file_icc, png_head_icc. rewrite <- !app_assoc. reflexivity. Qed.
+
+Theorem png_icc_pulled inflate w h depth rest crc ancs1 name z icrc tail profile fuel r :
+  (w < 4294967296)%N -> (h < 4294967296)%N -> length crc = 4 -> (lenN (ihdr_data w h depth rest) < 4294967296)%N ->
+  Forall anc_ok ancs1 -> name_ok name -> z <> [] -> length icrc = 4 -> (lenN (iccp_data name z) < 4294967296)%N ->
+  inflate z = Some profile -> profile <> [] ->
+  length ancs1 + 2 <= fuel -> length rest <= fuel -> Forall (fun a => length (a_data a) <= fuel) ancs1 ->
+  nofail r -> src_data r = png_file_icc w h depth rest crc ancs1 name z icrc tail ->
+  pulled inflate (png_prog fuel) r <= length (png_head_icc w h depth rest crc ancs1 name z icrc) + 4095.
+Proof.
+  intros H1 H2 H3 H4 H5 H6 H7 H8 H9 H10 H11 H12 H13 H14 Hn Hd. rewrite png_file_icc_head in Hd.
+  eapply pulled_prefix; [apply png_no_rd_once | exact Hn | exact Hd |].
+  rewrite <- png_file_icc_head. eapply png_meta_icc; eassumption.
+Qed.
+
+(* JPEG without a profile: everything through the SOS segment is the needed prefix *)
+Definition jpeg_head (items : list (N * list byte)) (sos : list byte) : list byte :=
+  soi ++ concat (map item_bytes items) ++ seg_bytes 0xda sos.
+Lemma jpeg_file_head items sos body : jpeg_file items sos body = jpeg_head items sos ++ body.
+Proof. unfold jpeg_file, jpeg_head. rewrite <- !app_assoc. reflexivity. Qed.
+
+Theorem jpeg_pulled inflate pre post t p h1 h2 w1 w2 more sos body fuel r :
+  let items := jpeg_plain_items pre post t p h1 h2 w1 w2 more in
+  Forall passive pre -> Forall passive post -> (t = 0xc0 \/ t = 0xc2)%N ->
+  Forall item_ok items -> seg_ok 0xda sos -> length items < fuel ->
+  nofail r -> src_data r = jpeg_file items sos body ->
+  pulled inflate (jpeg_prog fuel) r <= length (jpeg_head items sos) + 4095.
+Proof.
+  intros items H1 H2 H3 H4 H5 H6 Hn Hd. rewrite jpeg_file_head in Hd.
+  eapply pulled_prefix; [apply jpeg_no_rd_once | exact Hn | exact Hd |].
+  rewrite <- jpeg_file_head. apply jpeg_meta; assumption.
 Qed.
